@@ -46,18 +46,25 @@ Theorems (all complete; assumption `s.eof.type = .EOF` = the lexer's end-of-inpu
    `reject_row_empty_comparison`, `reject_row_missing_label`, lifted along traces by `rejected_after_entries`,
    `rejected_in_table`; statement level `mapscripts_missing_name`, `mapscripts_missing_lbrace`.
 
-Noticed in the model (faithful to parser.go as far as I can tell)
+Noticed in the model (= parser.go, `parseMapscriptsStatement`)
 * the same map-script type may occur any number of times: no duplicate check (`duplicate_type_accepted`); two
   inline entries / tables of the same type then get the SAME label `<ms>_<TYPE>` (`duplicate_type_same_label`)
   — the assembler, not poryscript, reports the duplicate symbol;
-* an end of input directly where a row / entry should start is not reported by the loops themselves
-  (`tableCollect` checks for EOF only after advancing): for a row it is reported as "missing ','" located on
-  the EOF token; for an entry as "expected map script type";
+* ROW NUMBERING counts every row: in `[ A, 1: F1   A, 2 { … } ]` the inline script is `<ms>_<TYPE>_1`;
+* an end of input exactly where a row should start is not recognised as such (`tableCollect` checks for EOF
+  only after advancing): it is reported as "missing ','" located on the end-of-input token
+  (`eof_at_row_start`); where an entry should start it is "expected map script type";
+* `mapscriptsToken` is read AFTER the scope modifier: with `mapscripts (local) M L` the "missing opening curly
+  brace" range starts at the `)`, not at `mapscripts` (`mapscripts_missing_lbrace`, `Mod.last`);
 * the collected condition / comparison strings are built with Go's `strings.Builder` idiom, which writes no
-  separator after an empty prefix (cf. C13b): `collVal` rather than `joinSp` in general.
+  separator after an empty prefix (cf. C13b): `collVal` rather than `joinSp` in general
+  (`collected_is_space_joined` when no substituted literal is empty).
+The token types / literals / lines of the example were checked against the lexer model with `#eval`
+(`Lexer.lexAll`; `+` lexes as `ILLEGAL "+"`); this is not part of the proofs.
 -/
 namespace Pory.C08b
-open Pory Pory.Parser Pory.C02P Pory.TopParse Pory.SwitchParse Pory.MapScriptsParse Pory.Emit
+open Pory Pory.Parser Pory.C02P Pory.TopParse Pory.MapScriptsParse Pory.Emit
+open Pory.SwitchParse (toks_two st_eq_of_toks)
 
 /-! ## 1. source order -/
 
@@ -502,5 +509,492 @@ theorem inline_row_label_is_script_name (ms ty : String) (i : Nat) (r : Row) (sc
   cases r with
   | plain => cases h
   | inline cs comma vs lb body imp => cases h; exact ⟨rfl, rfl⟩
+
+/-! ## 3. rejections (only what the model checks), errors located -/
+
+section
+variable (env : Env) (ms : String) (n : Nat) (mss : List MapScript) (tables : List TableMapScript)
+  (imp : ImpData) (s : PState)
+
+/-- Where an entry should start, anything but `}` or an identifier: error on that token. -/
+theorem reject_bad_type (h1 : (s.toks.headD s.eof).type ≠ .RBRACE) (h2 : (s.toks.headD s.eof).type ≠ .IDENT) :
+    (parseMapScriptEntries env ms (n + 1) mss tables imp).run s =
+      .error (newParseError (s.toks.headD s.eof)
+        s!"expected map script type, but got '{(s.toks.headD s.eof).lit}' instead") :=
+  ment_bad_type env ms n mss tables imp s h1 h2
+
+/-- Missing `:` / `{` / `[` after a type: error on the token found instead. -/
+theorem reject_after_type (ty : Tok) (tl : List Tok) (hty : ty.type = .IDENT)
+    (h1 : (tl.headD s.eof).type ≠ .COLON) (h2 : (tl.headD s.eof).type ≠ .LBRACE)
+    (h3 : (tl.headD s.eof).type ≠ .LBRACKET) :
+    (parseMapScriptEntries env ms (n + 1) mss tables imp).run (st s (ty :: tl)) =
+      .error (newParseError (tl.headD s.eof)
+        s!"expected ':', '[', or '\{' after map script type '{ty.lit}', but got '{(tl.headD s.eof).lit}' instead") :=
+  ment_bad_after_type env ms n mss tables imp s ty tl hty h1 h2 h3
+
+/-- Missing name after `TYPE :`: error on the token found instead. -/
+theorem reject_missing_label (ty colon : Tok) (tl : List Tok) (hty : ty.type = .IDENT)
+    (hc : colon.type = .COLON) (hx : (tl.headD s.eof).type ≠ .IDENT) :
+    (parseMapScriptEntries env ms (n + 1) mss tables imp).run (st s (ty :: colon :: tl)) =
+      .error (newParseError (tl.headD s.eof)
+        s!"expected map script label after ':', but got '{(tl.headD s.eof).lit}' instead") :=
+  ment_missing_label env ms n mss tables imp s ty colon tl hty hc hx
+
+end
+
+section
+variable (env : Env) (ms ty : String) (n i : Nat) (acc : List TableEntry) (imp : ImpData) (s : PState)
+
+/-- End of input inside a table, before the `,` of a row: error on the first token of that row. -/
+theorem reject_row_missing_comma (c : Tok) (cs rest : List Tok) (h0 : c.type ≠ .RBRACKET)
+    (h1 : ∀ v ∈ c :: cs, v.type ≠ .COMMA) (h2 : ∀ v ∈ cs, v.type ≠ .EOF)
+    (hrest : (rest.headD s.eof).type = .EOF) (hn : cs.length < n) :
+    (parseTableEntries env ms ty (n + 1) i acc imp).run (st s (c :: (cs ++ rest))) =
+      .error (newParseError c "missing ',' to specify map script table entry comparison value") :=
+  trow_missing_comma env ms ty n i acc imp s c cs rest h0 h1 h2 hrest hn
+
+/-- Empty condition: error on the first token of the row (the `,` itself when nothing precedes it). -/
+theorem reject_row_empty_condition (cs : List Tok) (comma : Tok) (rest : List Tok)
+    (h0 : (cs.headD comma).type ≠ .RBRACKET) (h1 : ∀ v ∈ cs, v.type ≠ .COMMA) (h2 : ∀ v ∈ cs.tail, v.type ≠ .EOF)
+    (h3 : comma.type = .COMMA) (hn : cs.length < n) (hemp : collVal s.constants cs = "") :
+    (parseTableEntries env ms ty (n + 1) i acc imp).run (st s (cs ++ comma :: rest)) =
+      .error (newParseError (cs.headD comma) "expected condition for map script table entry, but it was empty") :=
+  trow_empty_condition env ms ty n i acc imp s cs comma rest h0 h1 h2 h3 hn hemp
+
+/-- End of input inside a table, after the `,` of a row: range error from the first token of the row to the
+first token after the `,`. -/
+theorem reject_row_missing_delim (cs : List Tok) (comma v : Tok) (vs rest : List Tok)
+    (h0 : (cs.headD comma).type ≠ .RBRACKET) (h1 : ∀ v ∈ cs, v.type ≠ .COMMA) (h2 : ∀ v ∈ cs.tail, v.type ≠ .EOF)
+    (h3 : comma.type = .COMMA) (hn : cs.length < n) (hne : collVal s.constants cs ≠ "")
+    (h4 : ∀ x ∈ v :: vs, x.type ≠ .COLON ∧ x.type ≠ .LBRACE) (h5 : ∀ x ∈ vs, x.type ≠ .EOF)
+    (hrest : (rest.headD s.eof).type = .EOF) (hn2 : vs.length < n) :
+    (parseTableEntries env ms ty (n + 1) i acc imp).run (st s (cs ++ comma :: v :: (vs ++ rest))) =
+      .error (newRangeParseError (cs.headD comma) v "missing ':' or '{' to specify map script table entry") :=
+  trow_missing_delim env ms ty n i acc imp s cs comma v vs rest h0 h1 h2 h3 hn hne h4 h5 hrest hn2
+
+/-- Empty comparison value: range error from the first token of the row to the `:` / `{`. -/
+theorem reject_row_empty_comparison (cs : List Tok) (comma : Tok) (vs : List Tok) (d : Tok) (rest : List Tok)
+    (h0 : (cs.headD comma).type ≠ .RBRACKET) (h1 : ∀ v ∈ cs, v.type ≠ .COMMA) (h2 : ∀ v ∈ cs.tail, v.type ≠ .EOF)
+    (h3 : comma.type = .COMMA) (hn : cs.length < n) (hne : collVal s.constants cs ≠ "")
+    (h4 : ∀ x ∈ vs, x.type ≠ .COLON ∧ x.type ≠ .LBRACE) (h5 : ∀ x ∈ vs.tail, x.type ≠ .EOF)
+    (hd : d.type = .COLON ∨ d.type = .LBRACE) (hn2 : vs.length < n) (hemp : collVal s.constants vs = "") :
+    (parseTableEntries env ms ty (n + 1) i acc imp).run (st s (cs ++ comma :: (vs ++ d :: rest))) =
+      .error (newRangeParseError (cs.headD comma) d
+        "expected comparison value for map script table entry, but it was empty") :=
+  trow_empty_comparison env ms ty n i acc imp s cs comma vs d rest h0 h1 h2 h3 hn hne h4 h5 hd hn2 hemp
+
+/-- Missing name after `cond , value :`: error on the token found instead. -/
+theorem reject_row_missing_label (cs : List Tok) (comma : Tok) (vs : List Tok) (colon : Tok) (rest : List Tok)
+    (hwf : HdWF s.constants cs comma vs) (hc : colon.type = .COLON) (hn1 : cs.length < n) (hn2 : vs.length < n)
+    (hx : (rest.headD s.eof).type ≠ .IDENT) :
+    (parseTableEntries env ms ty (n + 1) i acc imp).run (st s (cs ++ comma :: (vs ++ colon :: rest))) =
+      .error (newParseError (rest.headD s.eof)
+        s!"expected map script label after ':', but got '{(rest.headD s.eof).lit}' instead") :=
+  trow_missing_label env ms ty n i acc imp s cs comma vs colon rest hwf hc hn1 hn2 hx
+
+end
+
+/-- **Errors of the entry loop along a trace.**  If the entry loop, after the entries of a trace, fails with
+`e` whatever the accumulators, the whole loop fails with `e`. -/
+theorem rejected_after_entries {env : Env} {ms : String} {K : List (String × String)} {n m : Nat}
+    {s sm : PState} {es : List Entry} (hit : Iter env ms K n s es m sm) (e : PFail)
+    (herr : ∀ mss' tables' imp', (parseMapScriptEntries env ms m mss' tables' imp').run sm = .error e)
+    (mss : List MapScript) (tables : List TableMapScript) (imp : ImpData) :
+    (parseMapScriptEntries env ms n mss tables imp).run s = .error e := by
+  rw [run_of_iter hit mss tables imp]
+  exact herr _ _ _
+
+/-- **Errors inside a table along traces.**  After the entries of a trace the loop meets `TYPE [`, the row loop
+reads the rows of a trace and then fails with `e` whatever the accumulators: the whole entry loop fails with
+`e`. -/
+theorem rejected_in_table {env : Env} {ms : String} {K : List (String × String)} {n m k : Nat}
+    {s sm sr : PState} {es : List Entry} {rows : List Row} (hit : Iter env ms K n s es (m + 1) sm)
+    {ty lbr : Tok} {rest : List Tok} (hsm : sm.toks = ty :: lbr :: rest) (hty : ty.type = .IDENT)
+    (hlbr : lbr.type = .LBRACKET) (hrows : RowIter env ms ty.lit K m 0 (st sm rest) rows k sr) (e : PFail)
+    (herr : ∀ i' acc' imp', (parseTableEntries env ms ty.lit k i' acc' imp').run sr = .error e)
+    (mss : List MapScript) (tables : List TableMapScript) (imp : ImpData) :
+    (parseMapScriptEntries env ms n mss tables imp).run s = .error e := by
+  refine rejected_after_entries hit e ?_ mss tables imp
+  intro mss' tables' imp'
+  rw [st_eq_of_toks hsm, ment_table env ms m mss' tables' imp' sm ty lbr rest hty hlbr,
+    rows_run_of_iter hrows, herr]
+  rfl
+
+/-- Missing name for the statement: range error from the token before (the keyword, or the `)` of the scope
+modifier) to the token found instead. -/
+theorem mapscripts_missing_name (env : Env) (fuel : Nat) (s : PState) (kw : Tok) (md : Mod) (x : Tok)
+    (tl : List Tok) (hmd : md.WF) (hx : x.type ≠ .IDENT) (hx' : x.type ≠ .LPAREN) :
+    (parseMapscriptsStatement env fuel).run (st s (kw :: (md.toks ++ x :: tl))) =
+      .error (newRangeParseError (md.last kw) x "missing name for mapscripts statement") := by
+  unfold parseMapscriptsStatement
+  simp [scope_mod _ s kw md x tl hmd hx', hx]
+
+/-- Missing `{` for the statement: range error from the token before the name (the keyword, or the `)` of the
+scope modifier) to the token found instead. -/
+theorem mapscripts_missing_lbrace (env : Env) (fuel : Nat) (s : PState) (kw : Tok) (md : Mod) (name x : Tok)
+    (tl : List Tok) (hmd : md.WF) (hname : name.type = .IDENT) (hx : x.type ≠ .LBRACE) :
+    (parseMapscriptsStatement env fuel).run (st s (kw :: (md.toks ++ name :: x :: tl))) =
+      .error (newRangeParseError (md.last kw) x
+        s!"missing opening curly brace for mapscripts '{name.lit}'") := by
+  unfold parseMapscriptsStatement
+  simp [scope_mod _ s kw md name (x :: tl) hmd (by simp [hname]), hname, hx]
+
+/-! ## non-vacuity -/
+section Examples
+
+/-- A token on a given line. -/
+def t (line : Nat) (ty : TT) (lit : String) : Tok := { type := ty, lit := lit, line := line, endLine := line }
+def cmd (id : Nat) (tok : Tok) : Stmt := .cmd { id := id, tok := tok, name := tok.lit, args := [] }
+
+/-! ### the example of the task (`const K = 2` on line 1)
+```
+mapscripts M {
+  MAP_SCRIPT_ON_LOAD: L
+  MAP_SCRIPT_ON_RESUME { lock }
+  MAP_SCRIPT_ON_FRAME_TABLE [
+    VAR_A, 1: F1
+    VAR_A, K + 1 { release }
+  ]
+}
+```
+(token types and literals as produced by the lexer model: `+` is an `ILLEGAL` token with literal `+`) -/
+def exHead : List Tok := [t 2 .MAPSCRIPTS "mapscripts", t 2 .IDENT "M", t 2 .LBRACE "{"]
+def exBody : List Tok :=
+  [t 3 .IDENT "MAP_SCRIPT_ON_LOAD", t 3 .COLON ":", t 3 .IDENT "L",
+   t 4 .IDENT "MAP_SCRIPT_ON_RESUME", t 4 .LBRACE "{", t 4 .IDENT "lock", t 4 .RBRACE "}",
+   t 5 .IDENT "MAP_SCRIPT_ON_FRAME_TABLE", t 5 .LBRACKET "[",
+   t 6 .IDENT "VAR_A", t 6 .COMMA ",", t 6 .INT "1", t 6 .COLON ":", t 6 .IDENT "F1",
+   t 7 .IDENT "VAR_A", t 7 .COMMA ",", t 7 .IDENT "K", t 7 .ILLEGAL "+", t 7 .INT "1", t 7 .LBRACE "{",
+   t 7 .IDENT "release", t 7 .RBRACE "}",
+   t 8 .RBRACKET "]",
+   t 9 .RBRACE "}"]
+def exK : List (String × String) := [("K", "2")]
+def exState : PState := { toks := exHead ++ exBody, eof := t 10 .EOF "", constants := exK }
+def exLoopState : PState := { exState with toks := exBody }
+
+def exRows : List Row :=
+  [ .plain [t 6 .IDENT "VAR_A"] (t 6 .COMMA ",") [t 6 .INT "1"] (t 6 .COLON ":") (t 6 .IDENT "F1"),
+    .inline [t 7 .IDENT "VAR_A"] (t 7 .COMMA ",") [t 7 .IDENT "K", t 7 .ILLEGAL "+", t 7 .INT "1"]
+      (t 7 .LBRACE "{") [cmd 1 (t 7 .IDENT "release")] {} ]
+
+def exEntries : List Entry :=
+  [ .plain (t 3 .IDENT "MAP_SCRIPT_ON_LOAD") (t 3 .COLON ":") (t 3 .IDENT "L"),
+    .inline (t 4 .IDENT "MAP_SCRIPT_ON_RESUME") (t 4 .LBRACE "{") [cmd 0 (t 4 .IDENT "lock")] {},
+    .table (t 5 .IDENT "MAP_SCRIPT_ON_FRAME_TABLE") (t 5 .LBRACKET "[") exRows ]
+
+def exMapScripts : List MapScript :=
+  [ { type := t 3 .IDENT "MAP_SCRIPT_ON_LOAD", name := "L", script := none },
+    { type := t 4 .IDENT "MAP_SCRIPT_ON_RESUME", name := "M_MAP_SCRIPT_ON_RESUME",
+      script := some { tok := {}, name := "M_MAP_SCRIPT_ON_RESUME", body := [cmd 0 (t 4 .IDENT "lock")],
+                       scope := .LOCAL } } ]
+
+def exTables : List TableMapScript :=
+  [ { type := t 5 .IDENT "MAP_SCRIPT_ON_FRAME_TABLE", name := "M_MAP_SCRIPT_ON_FRAME_TABLE",
+      entries :=
+        [ { condition := t 6 .IDENT "VAR_A", comparison := "1", name := "F1", script := none },
+          { condition := t 7 .IDENT "VAR_A", comparison := "2 + 1", name := "M_MAP_SCRIPT_ON_FRAME_TABLE_1",
+            script := some { tok := {}, name := "M_MAP_SCRIPT_ON_FRAME_TABLE_1",
+                             body := [cmd 1 (t 7 .IDENT "release")], scope := .LOCAL } } ] } ]
+
+def exStmt : MapScripts :=
+  { tok := t 2 .IDENT "M", name := "M", mapScripts := exMapScripts, tables := exTables, scope := .GLOBAL }
+
+/-- the lists of the trace are the expected ones: source order; the inline row is the second row of its
+table and is numbered 1; `K + 1` is collected as `2 + 1` -/
+example : mapScriptsOf "M" exEntries = exMapScripts := rfl
+example : tablesOf exK "M" exEntries = exTables := rfl
+theorem ex_numbering : (rowEntries exK "M" "T" 0 exRows).map (·.name) = ["F1", "M_T_1"] := by decide
+
+/-- the parser model on the example -/
+theorem ex_run : ∃ imp s', (parseMapscriptsStatement {} 40).run exState = .ok ((exStmt, imp), s') ∧
+    s'.toks = [t 9 .RBRACE "}"] :=
+  ⟨_, _, rfl, rfl⟩
+
+/-- `parse_mapscripts_statement_order` applies: the run has the shape `MapScriptsRun`. -/
+example : ∃ imp s', MapScriptsRun {} exState (exStmt, imp) s' := by
+  obtain ⟨imp, s', h, _⟩ := ex_run
+  exact ⟨imp, s', parse_mapscripts_statement_order {} 40 exState rfl _ _ h⟩
+
+/-- the rows of the table: an explicit trace -/
+theorem ex_rows_iter : ∃ sb, RowIter {} "M" "MAP_SCRIPT_ON_FRAME_TABLE" exK 37 0
+      { exState with toks := exBody.drop 9, nextCmdId := 1 } exRows 35 sb ∧
+    sb.toks = [t 8 .RBRACKET "]", t 9 .RBRACE "}"] :=
+  ⟨_, RowIter.cons (rest := exBody.drop 14) rfl rfl
+        ⟨⟨by decide, by decide, by decide, rfl, by decide, by decide, by decide, by decide⟩, rfl, rfl⟩
+        (by decide) rfl
+      (RowIter.cons (rest := exBody.drop 20) rfl rfl
+        ⟨⟨by decide, by decide, by decide, rfl, by decide, by decide, by decide, by decide⟩, rfl⟩
+        (by decide) ⟨_, rfl, rfl⟩
+      (RowIter.nil _ _ _)), rfl⟩
+
+/-- the loop alone, on the window after `{`: an explicit trace -/
+theorem ex_iter : ∃ se, Iter {} "M" exK 40 exLoopState exEntries 37 se ∧ se.toks = [t 9 .RBRACE "}"] := by
+  obtain ⟨sb, hrows, hsb⟩ := ex_rows_iter
+  refine ⟨_, Iter.cons (rest := exBody.drop 3) rfl rfl ⟨rfl, rfl, rfl⟩ rfl
+    (Iter.cons (rest := exBody.drop 5) rfl rfl ⟨rfl, rfl⟩ ⟨_, rfl, rfl⟩
+    (Iter.cons (rest := exBody.drop 9) rfl rfl ⟨rfl, rfl⟩ ⟨34, sb, hrows, by rw [hsb]; rfl, rfl⟩
+    (Iter.nil _ _))), ?_⟩
+  simp [hsb]
+
+/-- `parse_mapscript_entries_complete` and `parse_mapscript_entries_order` apply. -/
+example : ∃ imp se, (parseMapScriptEntries {} "M" 40 [] [] {}).run exLoopState =
+    .ok ((exMapScripts, exTables, imp), se) := by
+  obtain ⟨se, hit, hse⟩ := ex_iter
+  exact ⟨_, se, parse_mapscript_entries_complete hit (by rw [hse]; rfl) [] [] {}⟩
+
+example : ∃ es se, EntriesOf {} "M" exK exLoopState es se ∧ exMapScripts = [] ++ mapScriptsOf "M" es ∧
+    exTables = [] ++ tablesOf exK "M" es := by
+  obtain ⟨se, hit, hse⟩ := ex_iter
+  have h := parse_mapscript_entries_complete hit (by rw [hse]; rfl) [] [] {}
+  obtain ⟨es, hc, _, h1, h2, _⟩ := parse_mapscript_entries_order {} "M" 40 [] [] {} exLoopState rfl _ _ h
+  exact ⟨es, se, hc, h1, h2⟩
+
+/-- `parse_mapscripts_statement_complete` applies. -/
+example : ∃ imp se, (parseMapscriptsStatement {} 40).run exState = .ok ((exStmt, imp), se) := by
+  obtain ⟨se, hit, hse⟩ := ex_iter
+  exact ⟨_, se, parse_mapscripts_statement_complete (s := exState) (t 2 .MAPSCRIPTS "mapscripts") .absent
+    (t 2 .IDENT "M") (t 2 .LBRACE "{") exBody trivial rfl rfl hit (by rw [hse]; rfl)⟩
+
+/-! ### the emitted lines of the example (no line markers, no optimisation)
+```
+M::
+	map_script MAP_SCRIPT_ON_LOAD, L
+	map_script MAP_SCRIPT_ON_RESUME, M_MAP_SCRIPT_ON_RESUME
+	map_script MAP_SCRIPT_ON_FRAME_TABLE, M_MAP_SCRIPT_ON_FRAME_TABLE
+	.byte 0
+
+M_MAP_SCRIPT_ON_RESUME:
+	lock
+	return
+
+M_MAP_SCRIPT_ON_FRAME_TABLE:
+	map_script_2 VAR_A, 1, F1
+	map_script_2 VAR_A, 2 + 1, M_MAP_SCRIPT_ON_FRAME_TABLE_1
+	.2byte 0
+
+M_MAP_SCRIPT_ON_FRAME_TABLE_1:
+	release
+	return
+``` -/
+def exOpts : Opts := { optimize := false, lineMarkers := false }
+
+theorem ex_emit : ∃ ls, emitMapScripts exOpts [] [] exStmt = .ok ls := ⟨_, rfl⟩
+
+/-- `emitted_header_source_order` applies: the header lists the entries in source order, tables last. -/
+example : ∃ ls scripts tables, emitMapScripts exOpts [] [] exStmt = .ok ls ∧
+    ls = [.labelDef "M" true, .mapScript "MAP_SCRIPT_ON_LOAD" "L",
+          .mapScript "MAP_SCRIPT_ON_RESUME" "M_MAP_SCRIPT_ON_RESUME",
+          .mapScript "MAP_SCRIPT_ON_FRAME_TABLE" "M_MAP_SCRIPT_ON_FRAME_TABLE", .byte0] ++ scripts ++ tables := by
+  obtain ⟨ls, h⟩ := ex_emit
+  obtain ⟨scripts, tables, _, _, hls⟩ :=
+    emitted_header_source_order exOpts [] [] exStmt exK exEntries rfl rfl ls h
+  exact ⟨ls, scripts, tables, h, hls⟩
+
+/-- `emitted_tables_source_order` / `emitted_table_source_order` apply: the rows in source order. -/
+example : ∃ ls scripts, emitTables exOpts [] [] exTables = .ok ls ∧
+    ls = [.labelDef "M_MAP_SCRIPT_ON_FRAME_TABLE" false, .mapScript2 "VAR_A" "1" "F1",
+          .mapScript2 "VAR_A" "2 + 1" "M_MAP_SCRIPT_ON_FRAME_TABLE_1", .twoByte0] ++ scripts := by
+  have h : ∃ ls, emitTables exOpts [] [] exTables = .ok ls := ⟨_, rfl⟩
+  obtain ⟨ls, h⟩ := h
+  obtain ⟨scripts, rest, _, hrest, hls⟩ := emitted_table_source_order exOpts [] [] exK "M"
+    (t 5 .IDENT "MAP_SCRIPT_ON_FRAME_TABLE") exRows [] ls h
+  have : rest = [] := by simpa [emitTables] using hrest.symm
+  subst this
+  exact ⟨ls, scripts, h, by rw [hls, List.append_nil]; rfl⟩
+
+example : ∃ (ls : List Line) (parts : List (List Line)),
+    emitTables exOpts [] [] (tablesOf exK "M" exEntries) = .ok ls ∧ ls = parts.flatten ∧
+    parts.length = 1 := by
+  have h : ∃ ls, emitTables exOpts [] [] (tablesOf exK "M" exEntries) = .ok ls := ⟨_, rfl⟩
+  obtain ⟨ls, h⟩ := h
+  obtain ⟨parts, hp, hls⟩ := emitted_tables_source_order exOpts [] [] exK "M" exEntries ls h
+  refine ⟨ls, parts, h, hls, ?_⟩
+  cases hp with
+  | cons _ hp' => cases hp'; rfl
+
+/-! ### rejections -/
+
+/-- `mapscripts M { MAP_SCRIPT_ON_LOAD L }` — `reject_after_type`: error on `L`. -/
+example : (parseMapScriptEntries {} "M" 10 [] [] {}).run
+      (st exState [t 3 .IDENT "MAP_SCRIPT_ON_LOAD", t 3 .IDENT "L", t 4 .RBRACE "}"]) =
+    .error (newParseError (t 3 .IDENT "L")
+      "expected ':', '[', or '{' after map script type 'MAP_SCRIPT_ON_LOAD', but got 'L' instead") := by
+  have := reject_after_type {} "M" 9 [] [] {} exState (t 3 .IDENT "MAP_SCRIPT_ON_LOAD")
+    [t 3 .IDENT "L", t 4 .RBRACE "}"] rfl (by decide) (by decide) (by decide)
+  exact this.trans (congrArg (fun m => Except.error (newParseError (t 3 .IDENT "L") m)) (by decide))
+
+/-- `T: ` followed by `}` — `reject_missing_label`: error on the `}`. -/
+example : (parseMapScriptEntries {} "M" 10 [] [] {}).run
+      (st exState [t 3 .IDENT "T", t 3 .COLON ":", t 4 .RBRACE "}"]) =
+    .error (newParseError (t 4 .RBRACE "}") "expected map script label after ':', but got '}' instead") := by
+  have := reject_missing_label {} "M" 9 [] [] {} exState (t 3 .IDENT "T") (t 3 .COLON ":")
+    [t 4 .RBRACE "}"] rfl rfl (by decide)
+  exact this.trans (congrArg (fun m => Except.error (newParseError (t 4 .RBRACE "}") m)) (by decide))
+
+/-- End of input inside a table, after an entry and a row:
+```
+T: L
+U [
+  VAR_A, 1: F1
+  VAR_B <end of input>
+```
+`rejected_in_table` + `reject_row_missing_comma`: error located on `VAR_B` (line 6). -/
+def eofBody : List Tok :=
+  [t 3 .IDENT "T", t 3 .COLON ":", t 3 .IDENT "L", t 4 .IDENT "U", t 4 .LBRACKET "[",
+   t 5 .IDENT "VAR_A", t 5 .COMMA ",", t 5 .INT "1", t 5 .COLON ":", t 5 .IDENT "F1",
+   t 6 .IDENT "VAR_B", t 7 .EOF ""]
+def eofState : PState := { toks := eofBody, eof := t 7 .EOF "" }
+
+example : (parseMapScriptEntries {} "M" 20 [] [] {}).run eofState =
+    .error (newParseError (t 6 .IDENT "VAR_B") "missing ',' to specify map script table entry comparison value") :=
+  rejected_in_table (K := []) (m := 18) (k := 17) (sm := st eofState (eofBody.drop 3))
+    (sr := st eofState (eofBody.drop 10))
+    (es := [.plain (t 3 .IDENT "T") (t 3 .COLON ":") (t 3 .IDENT "L")])
+    (rows := [.plain [t 5 .IDENT "VAR_A"] (t 5 .COMMA ",") [t 5 .INT "1"] (t 5 .COLON ":") (t 5 .IDENT "F1")])
+    (MapScriptsParse.Iter.cons (rest := eofBody.drop 3) rfl rfl ⟨rfl, rfl, rfl⟩ rfl (MapScriptsParse.Iter.nil _ _))
+    (ty := t 4 .IDENT "U") (lbr := t 4 .LBRACKET "[") (rest := eofBody.drop 5) rfl rfl rfl
+    (RowIter.cons (rest := eofBody.drop 10) rfl rfl
+      ⟨⟨by decide, by decide, by decide, rfl, by decide, by decide, by decide, by decide⟩, rfl, rfl⟩
+      (by decide) rfl (RowIter.nil _ _ _))
+    _ (fun i' acc' imp' => reject_row_missing_comma {} "M" "U" 16 i' acc' imp' eofState (t 6 .IDENT "VAR_B") []
+        [t 7 .EOF ""] (by decide) (by decide) (by decide) rfl (by decide))
+    [] [] {}
+
+/-- the error is reported on line 6 -/
+example : ∃ e, (parseMapScriptEntries {} "M" 20 [] [] {}).run eofState = .error (.err e) ∧ e.lineStart = 6 :=
+  ⟨_, rfl, rfl⟩
+
+/-- An end of input exactly where a row should start is taken as the first token of a row and reported as a
+missing `,`, located on the end-of-input token. -/
+theorem eof_at_row_start (env : Env) (ms ty : String) (n i : Nat) (acc : List TableEntry) (imp : ImpData)
+    (s : PState) (he : s.eof.type = .EOF) :
+    (parseTableEntries env ms ty (n + 2) i acc imp).run (st s []) =
+      .error (newParseError s.eof "missing ',' to specify map script table entry comparison value") := by
+  have h1 : (s.eof.type == TT.COMMA) = false := by rw [he]; decide
+  have h2 : (s.eof.type == TT.EOF) = true := by rw [he]; decide
+  have h3 : (s.eof.type == TT.RBRACKET) = false := by rw [he]; decide
+  have hc : ∀ onEOF acc', (tableCollect (fun t => t.type == .COMMA) onEOF (n + 1) acc').run (st s []) =
+      .error onEOF := by
+    intro onEOF acc'
+    rw [tableCollect]
+    rsimp [h1, h2]
+  rw [parseTableEntries]
+  rsimp [h3, hc]
+
+/-- `1: L` where an entry should start — `reject_bad_type`: error on `1`. -/
+example : (parseMapScriptEntries {} "M" 10 [] [] {}).run (st exState [t 3 .INT "1", t 3 .COLON ":"]) =
+    .error (newParseError (t 3 .INT "1") "expected map script type, but got '1' instead") := by
+  have := reject_bad_type {} "M" 9 [] [] {} (st exState [t 3 .INT "1", t 3 .COLON ":"]) (by decide) (by decide)
+  exact this.trans (congrArg (fun m => Except.error (newParseError (t 3 .INT "1") m)) (by decide))
+
+/-- `[ , 1: F` — `reject_row_empty_condition`: error on the `,`. -/
+example : (parseTableEntries {} "M" "T" 10 0 [] {}).run
+      (st exState [t 3 .COMMA ",", t 3 .INT "1", t 3 .COLON ":", t 3 .IDENT "F"]) =
+    .error (newParseError (t 3 .COMMA ",") "expected condition for map script table entry, but it was empty") :=
+  reject_row_empty_condition {} "M" "T" 9 0 [] {} exState [] (t 3 .COMMA ",") _ (by decide) (by decide)
+    (by decide) rfl (by decide) rfl
+
+/-- `[ VAR_A, 1 <end of input>` — `reject_row_missing_delim`: range error from `VAR_A` to `1`. -/
+example : (parseTableEntries {} "M" "T" 10 0 [] {}).run
+      (st exState [t 3 .IDENT "VAR_A", t 3 .COMMA ",", t 3 .INT "1", t 4 .EOF ""]) =
+    .error (newRangeParseError (t 3 .IDENT "VAR_A") (t 3 .INT "1")
+      "missing ':' or '{' to specify map script table entry") :=
+  reject_row_missing_delim {} "M" "T" 9 0 [] {} exState [t 3 .IDENT "VAR_A"] (t 3 .COMMA ",") (t 3 .INT "1") []
+    [t 4 .EOF ""] (by decide) (by decide) (by decide) rfl (by decide) (by decide) (by decide) (by decide) rfl
+    (by decide)
+
+/-- `[ VAR_A, : F` — `reject_row_empty_comparison`: range error from `VAR_A` to `:`. -/
+example : (parseTableEntries {} "M" "T" 10 0 [] {}).run
+      (st exState [t 3 .IDENT "VAR_A", t 3 .COMMA ",", t 3 .COLON ":", t 3 .IDENT "F"]) =
+    .error (newRangeParseError (t 3 .IDENT "VAR_A") (t 3 .COLON ":")
+      "expected comparison value for map script table entry, but it was empty") :=
+  reject_row_empty_comparison {} "M" "T" 9 0 [] {} exState [t 3 .IDENT "VAR_A"] (t 3 .COMMA ",") []
+    (t 3 .COLON ":") [t 3 .IDENT "F"] (by decide) (by decide) (by decide) rfl (by decide) (by decide) (by decide)
+    (by decide) (Or.inl rfl) (by decide) rfl
+
+/-- `[ VAR_A, K: ]` — `reject_row_missing_label`: error on the `]`. -/
+example : (parseTableEntries {} "M" "T" 10 0 [] {}).run
+      (st exState [t 3 .IDENT "VAR_A", t 3 .COMMA ",", t 3 .IDENT "K", t 3 .COLON ":", t 4 .RBRACKET "]"]) =
+    .error (newParseError (t 4 .RBRACKET "]") "expected map script label after ':', but got ']' instead") := by
+  have := reject_row_missing_label {} "M" "T" 9 0 [] {} exState [t 3 .IDENT "VAR_A"] (t 3 .COMMA ",")
+    [t 3 .IDENT "K"] (t 3 .COLON ":") [t 4 .RBRACKET "]"]
+    ⟨by decide, by decide, by decide, rfl, by decide, by decide, by decide, by decide⟩ rfl (by decide) (by decide)
+    (by decide)
+  exact this.trans (congrArg (fun m => Except.error (newParseError (t 4 .RBRACKET "]") m)) (by decide))
+
+/-- `mapscripts {` — `mapscripts_missing_name`: range error from `mapscripts` to `{`. -/
+example (s : PState) (tl : List Tok) :
+    (parseMapscriptsStatement {} 5).run (st s (t 2 .MAPSCRIPTS "mapscripts" :: t 2 .LBRACE "{" :: tl)) =
+    .error (newRangeParseError (t 2 .MAPSCRIPTS "mapscripts") (t 2 .LBRACE "{")
+      "missing name for mapscripts statement") :=
+  mapscripts_missing_name {} 5 s (t 2 .MAPSCRIPTS "mapscripts") .absent (t 2 .LBRACE "{") tl trivial (by decide)
+    (by decide)
+
+/-- `inline_body_is_script_body` applies: `script M_MAP_SCRIPT_ON_RESUME { lock }` has the body of the inline
+entry `MAP_SCRIPT_ON_RESUME { lock }` of `mapscripts M`. -/
+example : ∃ imp sb, (parseScriptStatement {} 38).run
+      (st exState (t 4 .SCRIPT "script" :: t 4 .IDENT "M_MAP_SCRIPT_ON_RESUME" :: exBody.drop 4)) =
+    .ok (({ tok := t 4 .SCRIPT "script", name := "M_MAP_SCRIPT_ON_RESUME", body := [cmd 0 (t 4 .IDENT "lock")],
+            scope := defaultScopeOf "parseScriptStatement" }, imp), sb) :=
+  ⟨_, _, inline_body_is_script_body {} 38 exState (t 4 .SCRIPT "script") (t 4 .IDENT "M_MAP_SCRIPT_ON_RESUME")
+    (t 4 .LBRACE "{") (exBody.drop 5) rfl rfl ([cmd 0 (t 4 .IDENT "lock")], {}) _ rfl⟩
+
+/-- `mapscripts (local) M L` — `mapscripts_missing_lbrace`: the range starts at the `)` of the modifier. -/
+example (s : PState) (tl : List Tok) :
+    (parseMapscriptsStatement {} 5).run (st s (t 2 .MAPSCRIPTS "mapscripts" :: t 2 .LPAREN "(" ::
+      t 2 .LOCAL "local" :: t 2 .RPAREN ")" :: t 2 .IDENT "M" :: t 3 .IDENT "L" :: tl)) =
+    .error (newRangeParseError (t 2 .RPAREN ")") (t 3 .IDENT "L") "missing opening curly brace for mapscripts 'M'") := by
+  have := mapscripts_missing_lbrace {} 5 s (t 2 .MAPSCRIPTS "mapscripts")
+    (.written (t 2 .LPAREN "(") (t 2 .LOCAL "local") (t 2 .RPAREN ")")) (t 2 .IDENT "M") (t 3 .IDENT "L") tl
+    ⟨rfl, Or.inr rfl, rfl⟩ rfl (by decide)
+  exact this.trans (congrArg (fun m => Except.error (newRangeParseError (t 2 .RPAREN ")") (t 3 .IDENT "L") m))
+    (by decide))
+
+/-! ### no duplicate check on map-script types -/
+
+/-- `T: A  T: B }` is accepted: two entries of the same type. -/
+theorem duplicate_type_accepted : ∃ imp s', (parseMapScriptEntries {} "M" 10 [] [] {}).run
+      { toks := [t 3 .IDENT "T", t 3 .COLON ":", t 3 .IDENT "A", t 4 .IDENT "T", t 4 .COLON ":", t 4 .IDENT "B",
+                 t 5 .RBRACE "}"], eof := t 6 .EOF "" } =
+    .ok (([{ type := t 3 .IDENT "T", name := "A", script := none },
+           { type := t 4 .IDENT "T", name := "B", script := none }], [], imp), s') :=
+  ⟨_, _, rfl⟩
+
+/-- Two inline entries (or tables) of the same type get the same label `<ms>_<TYPE>`. -/
+theorem duplicate_type_same_label (ms : String) (ty lb ty' lb' : Tok) (b b' : List Stmt) (i i' : ImpData)
+    (h : ty'.lit = ty.lit) :
+    (mapScriptsOf ms [.inline ty lb b i, .inline ty' lb' b' i']).map (·.name) =
+      [ms ++ "_" ++ ty.lit, ms ++ "_" ++ ty.lit] := by
+  simp [mapScriptsOf, Entry.mapScript, entryName, toString, h]
+
+end Examples
+
+#print axioms parse_table_entries_order
+#print axioms parse_table_entries_complete
+#print axioms parse_mapscript_entries_order
+#print axioms parse_mapscript_entries_complete
+#print axioms parse_mapscripts_statement_order
+#print axioms parse_mapscripts_statement_complete
+#print axioms inline_body_is_script_body
+#print axioms row_numbering_counts_all_rows
+#print axioms mapScriptsOf_eq
+#print axioms tablesOf_eq
+#print axioms emitted_header_source_order
+#print axioms emitted_table_source_order
+#print axioms emitted_tables_source_order
+#print axioms reject_bad_type
+#print axioms reject_after_type
+#print axioms reject_missing_label
+#print axioms reject_row_missing_comma
+#print axioms reject_row_empty_condition
+#print axioms reject_row_missing_delim
+#print axioms reject_row_empty_comparison
+#print axioms reject_row_missing_label
+#print axioms rejected_after_entries
+#print axioms rejected_in_table
+#print axioms mapscripts_missing_name
+#print axioms mapscripts_missing_lbrace
+#print axioms eof_at_row_start
+#print axioms duplicate_type_accepted
 
 end Pory.C08b
